@@ -17,7 +17,7 @@ var memExceeded atomic.Bool
 var watchdogOnce sync.Once
 
 const memLimitBytes = 6 << 30
-const memHardLimitBytes = 14 << 30
+const memHardLimitBytes = 10 << 30
 const unitTimeLimit = 240 * time.Second
 
 // hardAbort is installed by the property runner: it reports the unit being processed as
@@ -25,6 +25,11 @@ const unitTimeLimit = 240 * time.Second
 // exits with status 1. It is the last resort when the executor does not reach one of
 // its cooperative check points while memory keeps growing.
 var hardAbort func(reason string)
+
+// unitStarted is when the generation of the current unit began (zero: not generating).
+var unitStarted atomic.Int64
+
+const unitHardTimeLimit = 360 * time.Second
 
 func startWatchdog() {
 	watchdogOnce.Do(func() {
@@ -35,6 +40,9 @@ func startWatchdog() {
 				runtime.ReadMemStats(&ms)
 				if ms.HeapAlloc > memLimitBytes {
 					memExceeded.Store(true)
+				}
+				if t0 := unitStarted.Load(); t0 != 0 && hardAbort != nil && time.Since(time.Unix(0, t0)) > unitHardTimeLimit {
+					hardAbort(fmt.Sprintf("generating the obligations of this unit took more than %d s (state explosion)", int(unitHardTimeLimit.Seconds())))
 				}
 				if ms.HeapAlloc > memHardLimitBytes && hardAbort != nil {
 					hardAbort(fmt.Sprintf("the verifier used more than %d GB while processing this unit (state explosion)", memHardLimitBytes>>30))
